@@ -60,6 +60,7 @@ def run(check: Check):
   check.floor('R-TYPE', 'metrics', n, 13)
   static_metric_fields(check)
   _per_domain_zero(check)
+  _mask_kept(check)
   # division guards
   dv = DivAnalysis(repo)
   for modname, q in ((MOD, 'MeanStat.result'), ('fedjax.core.util', 'safe_div')):
@@ -146,6 +147,12 @@ def _direct_ctor(check: Check, stat_names):
             boolean = isinstance(v, (ast.Compare, ast.BoolOp)) or (isinstance(v, ast.Call) and (ff.ext(v.func) or '') in (
                 'jax.numpy.any', 'jax.numpy.all', 'jax.numpy.logical_and', 'jax.numpy.logical_or', 'jax.numpy.logical_not', 'jax.numpy.isin',
                 'jax.numpy.isfinite', 'jax.numpy.isnan', 'jax.numpy.equal', 'jax.numpy.not_equal', 'jax.numpy.greater', 'jax.numpy.less'))
+            small_int = isinstance(v, ast.Call) and any(k.arg == 'dtype' and txt(k.value).split('.')[-1] in (
+                'uint8', 'int8', 'uint16', 'int16', 'bool_', 'bool') for k in v.keywords)
+            if small_int:
+              check.ob('R-STAT.dtype', fi, txt(c)[:80], False,
+                       f'`{txt(v)[:50]}` is a narrow integer accumulator: merging statistics one by one adds in that type and wraps around '
+                       '(uint8 after 255 examples in one cell)', node=c, exact=True)
             if boolean:
               check.ob('R-STAT.dtype', fi, txt(c)[:80], False,
                        f'`{txt(v)[:50]}` is boolean: statistics of booleans merge by OR instead of adding up; cast it (.astype(jnp.float32)) '
@@ -432,4 +439,33 @@ def _per_domain_zero(check: Check):
   check.ob('R-TYPE.domains', z, 'zero(): base.zero() with a leading [num_domains] axis', ok,
            'the identity statistic carries the domain axis (num_domains is used to shape it)' if ok else
            'zero() never looks at num_domains: the identity has the shape of the base statistic, not [num_domains, ...]')
+
+
+def _mask_kept(check: Check):
+  """The mask feature of a padded batch reaches whoever evaluates the batch: nothing in the evaluation paths of models.py / metrics.py
+  removes it (pop, del, a filtered copy of the batch). "The last row is real" or "padding rows are all pad tokens" are not facts the
+  library may rely on - a mask may be False anywhere."""
+  repo = check.repo
+  n = 0
+  for modname in (MODELS, MOD):
+    m = repo.module(modname)
+    for fi in m.functions():
+      ff = FuncFlow.of(repo, fi)
+      for _, c in ff.calls():
+        if isinstance(c.func, ast.Attribute) and c.func.attr == 'pop' and c.args and 'EXAMPLE_MASK_KEY' in txt(c.args[0]):
+          n += 1
+          check.ob('R-MASK.kept', fi, txt(c)[:60], False, 'the mask is removed from the batch', node=c, exact=True)
+      for x in ast.walk(fi.node):
+        if isinstance(x, ast.DictComp) and any(isinstance(t, ast.Compare) and 'EXAMPLE_MASK_KEY' in txt(t) and isinstance(t.ops[0], (ast.NotEq, ast.IsNot))
+                                               for g in x.generators for t in g.ifs):
+          n += 1
+          check.ob('R-MASK.kept', fi, txt(x)[:70], False,
+                   'a copy of the batch without its mask is evaluated: padding rows count as real examples whenever the assumption '
+                   'behind the shortcut does not hold', node=x, exact=True)
+        if isinstance(x, ast.Delete) and any('EXAMPLE_MASK_KEY' in txt(t) for t in x.targets):
+          n += 1
+          check.ob('R-MASK.kept', fi, txt(x)[:60], False, 'the mask is deleted from the batch', node=x, exact=True)
+  if not n:
+    check.ob('R-MASK.kept', (repo.module(MODELS).relpath, '<evaluation paths>'), 'EXAMPLE_MASK_KEY is never removed', True,
+             'no evaluation path drops the mask feature', nontrivial=False)
 
